@@ -437,6 +437,8 @@ class Harness:
             fl.append("mid")
         if self.n_cancel_granted_put:
             fl.append("cp")
+        if self.two_procs:
+            fl.append("2p")
         return f"{label}@{self.ad.name}[{','.join(fl)}]"
 
     def fail(self, label, info=None):
@@ -612,7 +614,7 @@ class Harness:
         return t
 
     def do_reserve_put(self, prio=None, proc=None):
-        proc = proc or self.P[0]
+        proc = proc or (self.pick_proc() if self.two_procs else self.P[0])
         if self.ad.prio and prio is None:
             prio = self.ctx.int("p") if self.sym_prio else 0
         self.as_proc(proc)
@@ -623,7 +625,7 @@ class Harness:
         return t
 
     def do_reserve_get(self, prio=None, proc=None, theta=None):
-        proc = proc or self.P[0]
+        proc = proc or (self.pick_proc() if self.two_procs else self.P[0])
         if self.ad.prio and prio is None:
             prio = self.ctx.int("p") if self.sym_prio else 0
         self.as_proc(proc)
@@ -995,14 +997,16 @@ def _prefix_arrivals(h, N):
 
 
 def scenario(store, family, N=3, K=2, oracles=("C01", "C02", "C04", "C05", "C06"), cap_max=None, cap_fixed=None,
-             sym_prio=False, R2=2, USE=True, TR=True, twin=False, RMAX=9, S=2, EARLY=False, DRAIN=True):
+             sym_prio=False, R2=2, USE=True, TR=True, twin=False, RMAX=9, S=2, EARLY=False, DRAIN=True, PROCS=1):
     """returns fn(ctx) exploring prefix(family, N) followed by K free calls on the given store."""
     def fn(ctx):
         ad = adapter(store)
         cm = cap_max
         if family == "prio_put" and cm is None and cap_fixed is None:
             cm = 2
-        h = Harness(ctx, ad, oracles, cap_max=cm, cap_fixed=cap_fixed,
+        # PROCS=1: one caller process owns every reservation; 2: two caller processes take turns; "both": either (a choice)
+        two = bool(ctx.choice(2, "two-caller-processes?")) if PROCS == "both" else PROCS == 2
+        h = Harness(ctx, ad, oracles, cap_max=cm, cap_fixed=cap_fixed, two_procs=two,
                     sym_prio=sym_prio or family.startswith("prio"))
         h.early = EARLY
         if family == "retrieval":
